@@ -28,8 +28,10 @@ var (
 	manager message.Manager
 
 	// Router is shared between httpd, webui and rest packages. It sends
-	// incoming requests to the correct handler function
-	Router = mux.NewRouter()
+	// incoming requests to the correct handler function.  It matches the encoded path, so
+	// that a mailbox name containing an escaped '/' stays one path segment; NewContext
+	// decodes the route variables.
+	Router = mux.NewRouter().UseEncodedPath()
 
 	rootConfig *config.Root
 	server     *http.Server
